@@ -1,8 +1,8 @@
 #!/verif/.venv/bin/python
 # Replay of a solver counterexample against the unmodified code (no shims).
-# property=C09 kernel=atomic label=atomic:add_nodelay#1
+# property=C09 kernel=atomic label=atomic:eom_on#1
 import sys
 sys.path[:0] = ['/repo' + "/pulser-core", '/repo' + "/pulser-simulation", "/verif"]
 from symx.replay import replay
-sys.exit(replay(check='checks.c09', kernel='atomic', shape={'device': 'virt_maxseq', 'prefix': 'pslm', 'ops': ['declare_again', 'add_nodelay']},
-                assignment={'d1': 7}, label='atomic:add_nodelay#1'))
+sys.exit(replay(check='checks.c09', kernel='atomic', shape={'device': 'virt_maxseq', 'prefix': 'p0', 'ops': ['add_g', 'eom_on']},
+                assignment={'d0': 3925, 'a0': '1/2', 'det0': 2513274116, 'buf#1.start': 0, 'buf#1.end': 1, 'buf#2.start': 0, 'buf#2.end': 0}, label='atomic:eom_on#1'))
